@@ -113,6 +113,7 @@ func init() {
 				CollLimits: []uint32{0, 1, 2, 3, 5, 255, 255},
 			})
 			g.DigRoots = true
+			g.HipGroupsPct = 20 // nested maps (default digester) collide too
 			return g
 		},
 		Or: func(*Case) Oracles {
@@ -208,7 +209,7 @@ func cmpValueOfRoot(e *Engine, r *Node) error {
 	if err != nil {
 		return err
 	}
-	if err := cmpValue(v, r, fmt.Sprintf("former parent root#%d", r.ID), CmpOpts{CheckVID: true}); err != nil {
+	if err := cmpValue(v, r, fmt.Sprintf("former parent root#%d", r.ID), e.co()); err != nil {
 		return e.viol("%v", err)
 	}
 	return nil
